@@ -58,6 +58,27 @@ def _cfgs(tier, rng):
                     c["mul_base"] = "GGA_C_PBE"
                     c["add_base"] = str(rng.choice(["GGA_C_PBE", "LDA_C_PW_MOD"]))
             cfgs.append(c)
+    # covering rows that the random draw above reaches only rarely: libxc-backed models (MappedXC2) in every spin mode on
+    # the unrestricted path with genuinely spin-polarised density matrices (cross-spin gradient terms), GGA and MGGA
+    must = [
+        dict(family="sl-npa", spin="uks", mode="NPOL", model="xc2", mul_base="GGA_C_PBE", add_base="GGA_C_PBE", mix="pure"),
+        dict(family="sl-np", spin="uks", mode="NPOL", model="xc2", mul_base="OS_GGA_C_PBE", add_base="SS_GGA_C_PBE", mix="xmix"),
+        dict(family="sl-npa", spin="uks", mode="POL", model="xc2", mul_base="GGA_C_PBE", add_base=None, mix="pure"),
+        dict(family="sl-nst", spin="uks", mode="NPOL", model="xc2", mul_base="MGGA_C_R2SCAN", add_base="LDA_C_PW_MOD", mix="mgga"),
+        dict(family="sl-np", spin="uks", mode="SEP", model="xc2", mul_base="GGA_X_PBE", add_base=None, mix="xmix"),
+        dict(family="vj-mgga", spin="uks", mode="NPOL", model="xc2", mul_base="GGA_C_PBE", add_base="GGA_C_PBE", mix="pure",
+             plan_type="gaussian", interp="onsite_direct"),
+        dict(family="sdmx", spin="rks", mode="NPOL", model="xc2", mul_base="GGA_C_PBE", add_base="GGA_C_PBE", mix="xmix"),
+        dict(family="sl-npa", spin="rks", mode="POL", model="xc2", mul_base="GGA_C_PBE", add_base=None, mix="pure"),
+    ]
+    for rep in range(reps):
+        for m in must:
+            c = dict(m)
+            c["mol"] = str(rng.choice(["NH2", "CH3", "O2", "Li"] if c["spin"] == "uks" else ["H2O", "HF"]))
+            c["basis"] = str(rng.choice(["6-31g", "sto-3g"]))
+            c["level"] = int(rng.integers(0, 2))
+            c["evaluator"] = str(rng.choice(["rbf", "kernel"]))
+            cfgs.append(c)
     return cfgs
 
 
